@@ -364,7 +364,8 @@ void nl_string_shrink_to_fit(nl_string_t *str) {
     if (!str || str->capacity == str->length) return;
     
     size_t new_capacity = str->length + (str->null_terminated ? 1 : 0);
-    char *new_data = realloc(str->data, new_capacity);
+    /* realloc(ptr, 0) frees ptr and returns NULL: keep a one-byte block for the empty string */
+    char *new_data = realloc(str->data, new_capacity ? new_capacity : 1);
     if (!new_data) return;
     
     str->data = new_data;
